@@ -10,6 +10,7 @@ mod hostile;
 mod refmath;
 mod ring;
 mod scalar;
+mod sweeps;
 
 use util::Args;
 pub use codec::patch_field as codec_patch_field;
@@ -25,6 +26,7 @@ fn main() {
         "ring" => ring::run(&args),
         "codec" | "skfields" => codec::run(a[1].as_str(), &args),
         "hostile" => hostile::run(&args),
+        "sweeps" => sweeps::run(&args),
         "api" => apitrace::run(&args),
         other => { eprintln!("unknown subcommand {}", other); std::process::exit(2); }
     }
